@@ -319,5 +319,8 @@ def run(ck):
         three_way(ck, 70 if ck.tier == "quick" else 3000)
         if os.path.exists(os.path.join(common.COQ, "lib", "BytecodeS.v")):
             three_way(ck, 70 if ck.tier == "quick" else 3000, assign=True)
+    if os.path.exists(os.path.join(common.COQ, "c01", "Pins_C01p.v")):
+        from checks import c01_passes
+        c01_passes.run_passes(ck)
     if not proved and not ck.violations:
         ck.unproved()
